@@ -9,7 +9,10 @@ import (
 	"database/sql/driver"
 	"errors"
 	"fmt"
+	"path/filepath"
+	"strings"
 	"sync"
+	"time"
 
 	sqlite3 "github.com/mattn/go-sqlite3"
 )
@@ -24,6 +27,25 @@ type vShimControl struct {
 	// gate, when set, is called (outside the lock) before every operation: the
 	// C16 scheduler parks storage operations there
 	gate func(what string)
+	// outage: the primary is unreachable: reads hang (until the outage is over,
+	// at most 1.5 s, then fail), writes fail at once
+	outage    bool
+	outageEnd chan struct{}
+}
+
+// setOutage switches the simulated unreachability of this database.
+func (c *vShimControl) setOutage(on bool) {
+	c.Lock()
+	defer c.Unlock()
+	if on == c.outage {
+		return
+	}
+	c.outage = on
+	if on {
+		c.outageEnd = make(chan struct{})
+	} else {
+		close(c.outageEnd)
+	}
 }
 
 var vShimErr = errors.New("verif: injected storage fault")
@@ -48,6 +70,19 @@ func (c *vShimControl) step(what string) bool {
 	c.Unlock()
 	if g != nil {
 		g(what)
+	}
+	c.Lock()
+	out, end := c.outage, c.outageEnd
+	c.Unlock()
+	if out {
+		if what == "begin" || what == "commit" || strings.HasPrefix(what, "exec:") {
+			return true
+		}
+		select {
+		case <-end: // reachable again: the operation goes through
+		case <-time.After(1500 * time.Millisecond):
+			return true
+		}
 	}
 	c.Lock()
 	defer c.Unlock()
@@ -175,4 +210,33 @@ func vOpenShim(filename string) (*sql.DB, *vShimControl) {
 		panic(err)
 	}
 	return db, ctl
+}
+
+// vShimPrimary puts the world's primary profile store behind the shim (the
+// plain handle stays available to the harness as w.vRawPrimary()).
+func (w *vWorld) vShimPrimary() *vShimControl {
+	raw := w.state.db
+	db, ctl := vOpenShim(filepath.Join(w.dir, profileDBFilename))
+	w.rawPrimary = raw
+	w.state.db = db
+	w.outageHook = func(on bool) {
+		ctl.setOutage(on)
+		if on {
+			// any positive patience: the read never returns while the outage lasts
+			w.state.remoteDBQueryTimeout = 40 * time.Millisecond
+		} else {
+			w.state.remoteDBQueryTimeout = vPrimaryPatience
+		}
+	}
+	return ctl
+}
+
+// vPrimaryOutage makes the primary unreachable / reachable again.  Unlike the
+// "patience 0" trick of the repository's own tests, which races a 10 ms sleep
+// against the scheduler, this does not depend on how busy the machine is.
+func (w *vWorld) vPrimaryOutage(on bool) {
+	if w.outageHook == nil {
+		panic("verif: world has no shimmed primary")
+	}
+	w.outageHook(on)
 }
